@@ -392,7 +392,8 @@ class Aggregate:
             "runs_per_hour": round(self.n / wall * 3600) if wall > 0 else 0,
             "seeds_per_hour_note": "one VERIF_SEED per invocation; every run index derives its own run seed",
             "simulated_time": {"scheduler_steps": self.stats.get("steps", 0),
-                               "virtual_bytes_read": self.stats.get("bytes", 0)},
+                               "virtual_bytes_read": self.stats.get("bytes", 0),
+                               "simulated_clock_seconds": round(self.stats.get("sim_clock_seconds", 0), 3)},
             "faults_fired": dict(sorted(self.faults.items())),
             "reach_probes": {k: self.stats.get(k, 0) for k in meta.get("probes", [])},
             "counters": dict(sorted(self.stats.items())),
